@@ -176,6 +176,14 @@ static void push_evt(m_mod_t *mod, evt_priv_t *evt) {
                 mod->tb.tokens++;
             }
         }
+        if (!force) {
+            /*
+             * Only the batch timer delivers what was accumulated:
+             * any other internal event is no reason to run the callback
+             * (eg: with low priority events that piled up beyond the batch size).
+             */
+            return;
+        }
     } else {
         m_queue_enqueue(mod->batch.events, evt);
         /*
